@@ -136,7 +136,8 @@ func (tx *txn) Prepare(query string) (*stmt, error) {
 	s, err := tx.Tx.Prepare(query)
 	if dur := time.Since(start); dur > longQueryDuration {
 		tx.log.Debug("slow prepare", zap.String("query", query), zap.Duration("elapsed", dur), zap.Stack("stack"))
-	} else if err != nil {
+	}
+	if err != nil {
 		return nil, err
 	}
 	return &stmt{
